@@ -18,7 +18,8 @@ from harness import common
 from harness.translate import gen as G
 
 PROPERTY = "C06"
-LEAN_MODULES = ["SigpyVerif.Props.C06", "SigpyVerif.Props.C06Nd", "SigpyVerif.Props.C06Toeplitz"]
+LEAN_MODULES = ["SigpyVerif.Props.C06", "SigpyVerif.Props.C06Nd", "SigpyVerif.Props.C06Toeplitz",
+                "SigpyVerif.Props.C06Batch", "SigpyVerif.Props.C06ToeplitzNd", "SigpyVerif.Props.C06Nudft"]
 THEOREMS = ["SigpyVerif.C06." + t for t in [
     "os_sites_agree", "oversampLen_ge", "scaleCoord_period", "nufft_periodic1", "nufft_periodic2", "nufft_periodic3",
     "nudft_periodic", "grid_centre_consistency", "crop_centre_consistency", "dc_lands_on_centre",
@@ -34,6 +35,26 @@ THEOREMS = ["SigpyVerif.C06." + t for t in [
     "toep_embed_len", "toep_coord_doubled", "toep_delta_on_centre", "toep_final_mul", "toeplitz_checked",
     "nudft_gram_toeplitz", "toep_psf_is_kernel", "circulant_diagonalised", "toeplitz_embedding_exact",
     "toeplitz_structure",
+    # leading batch axes and three transform axes (Props/C06Batch.lean): adjointness composed axis by axis
+    "adjScaled_one", "adjScaled_kron", "adjScaled_dft", "inner_of_adjScaled", "bx1_inj", "bx2_inj", "bx3_inj",
+    "resize1B_adjoint", "ufft1B_adjoint", "interp1B_adjoint", "nufft_adjoint_is_adjoint_1d_batch",
+    "resize2B_adjoint", "ufft2B_adjoint", "interp2B_adjoint", "nufft_adjoint_is_adjoint_2d_batch",
+    "resize3B_adjoint", "ufft3B_adjoint", "interp3B_adjoint", "nufft_adjoint_is_adjoint_3d_batch",
+    "nufft_adjoint_is_adjoint_3d", "nufft_adjoint_is_adjoint_3d_code",
+    "interp1_batch_diagonal", "interp2_batch_diagonal", "interp3_batch_diagonal",
+    # the weights `_apodize` computes are real (removes the "real weights" assumption for the code's formula)
+    "csqrt_div_sinh_real", "apodWeight_real", "apodWeight_eq_re", "apodize3_is_real_diagonal",
+    # N-d Toeplitz embedding by per-axis composition (Props/C06ToeplitzNd.lean)
+    "circ_entry", "circDiag_axis", "circDiag_kron", "embed_entry", "lag_pad", "pad_axis_iff",
+    "resizeMatNd_pad2", "resizeMatNd_crop2", "resizeMatNd_pad3", "resizeMatNd_crop3",
+    "toeplitz_embedding_exact_2d", "toeplitz_embedding_exact_3d", "nudft_gram_toeplitz_2d", "nudft_gram_toeplitz_3d",
+    "toeplitz_structure_2d", "toeplitz_structure_3d",
+    # the exact NUDFT reference and the error identity of the generated 1-D pipeline (Props/C06Nudft.lean)
+    "nudftTerm_shift", "nudftTerm_modulation", "nudftTerm_norm", "nudftOn_shift", "nudft_add", "nudft_smul",
+    "nudft_periodic_coord", "nudft_modulation", "nudft_row_normSq", "wrapIdx_val", "interpLin_apply",
+    "ufft_resize_apply", "root_wrap", "fftRoot_zpow", "kernelArgs_spec", "kernelSum_shift", "phase_split",
+    "sum_list_comm", "list_sum_factor", "nufft1_eq_nudft_times_kernel", "nufft1_error_identity", "nufft1_error_le",
+    "nufft1_row_error", "nufft1_row_error_le",
 ]]
 
 # Toeplitz normal operator (search oracle): A.N(x) against A.H(A(x)) for NUFFT(..., oversamp=2, width=w, toeplitz=True).
@@ -262,6 +283,124 @@ def _reified_stream(ctx):
     return bad
 
 
+def _kb_kernel():
+    from sigpy import interp
+    f = interp._kaiser_bessel_kernel
+    return getattr(f, "py_func", f)
+
+
+def _identity_stream(ctx):
+    """End-to-end tie of the pipeline model of the theorems `nufft1_eq_nudft_times_kernel` / `nufft_adjoint_is_adjoint_*`:
+    the matrix of the REAL `sp.nufft` (and of `sp.nufft_adjoint`) against the theorem's right-hand side
+        A[j, n] = prod_d N_d^-1/2 exp(-2 pi i k_jd nu_d / N_d) * a_d(nu_d) * S_d(kappa_jd, nu_d),   nu_d = n_d - N_d//2,
+        S_d = (1/W) sum_i K(arg_i) exp(-2 pi i (i - kappa) nu_d / L_d)
+    where L_d, kappa_jd, the wrapped grid indices and the kernel arguments arg_i come from the DRIVER (the generated
+    `Gen.oversampLen` / `Gen.scaleCoord` / `Gen.interp1`, Model/C06.lean `kernelArgs`, = `kernelSum` by `kernelArgs_spec`),
+    the kernel values K(arg) are sigpy's own `_kaiser_bessel_kernel` (its accuracy is C07's business) and a_d is the
+    apodisation formula with the model's centre / length.  1-D is the theorem; 2-D / 3-D use the product form."""
+    from sigpy import fourier
+    rng = ctx.rng
+    kb = _kb_kernel()
+    bad = 0
+    worst = 0.0
+    cases = []
+    for _ in range(16 if ctx.tier == "quick" else 120):
+        nd = rng.choice([1, 1, 2, 3])
+        shape = [rng.randint(1, [0, 12, 6, 4][nd]) for _ in range(nd)]
+        npts = rng.choice([1, 2, 4])
+        kind = rng.choice(["random", "on-grid", "half-integer", "out-of-range"])
+        coord = []
+        for _j in range(npts):
+            row = []
+            for N in shape:
+                if kind == "random":
+                    v = Fraction(rng.randint(-8 * N, 8 * N), 16)
+                elif kind == "on-grid":
+                    v = Fraction(rng.randint(-(N // 2), N - N // 2 - 1))
+                elif kind == "half-integer":
+                    v = Fraction(2 * rng.randint(-(N // 2), N - N // 2 - 1) + 1, 2)
+                else:
+                    v = Fraction(rng.randint(-8 * N, 8 * N), 16) + rng.choice([-3, -1, 1, 2, 17]) * N
+                row.append(v)
+            coord.append(row)
+        cases.append((shape, rng.choice(OVERSAMPS), rng.choice(WIDTHS), coord, kind))
+    lines = []
+    for shape, os_, w, coord, kind in cases:
+        for row in coord:
+            for N, v in zip(shape, row):
+                lines.append("C06 kernelsum os=%s n=%d c=%s width=%d" % (R(os_), N, R(v), w))
+    replies = ctx.driver(lines)
+    k = 0
+    for shape, os_, w, coord, kind in cases:
+        nd, npts = len(shape), len(coord)
+        rs = replies[k:k + nd * npts]
+        ln0 = lines[k]
+        k += nd * npts
+        ctx.case(("identity", tuple(shape), os_, w, kind, tuple(tuple(r) for r in coord)),
+                 sample=dict(line=ln0, reply=rs[0]) if ctx.evaluations % 7 == 0 else None)
+        ctx.count("identity:ndim%d" % nd)
+        ctx.count("identity:%s" % kind)
+        beta = beta_of(w, os_)
+        why = None
+        tie = False
+        try:
+            model = np.ones((npts,) + tuple(shape), dtype=np.complex128)
+            for j, row in enumerate(coord):
+                for d, (N, v) in enumerate(zip(shape, row)):
+                    r = rs[j * nd + d]
+                    if not r.startswith("ok "):
+                        raise ValueError("model " + r)
+                    pL, pk, psrc, parg = r[3:].split()
+                    L, kappa = int(pL), Fraction(pk)
+                    srcs = [] if psrc == "-" else [int(t) for t in psrc.split(",")]
+                    args = [] if parg == "-" else [Fraction(t) for t in parg.split(",")]
+                    # the real code evaluates the window on ITS float scaled coordinate (`_scale_coord` of the tree under
+                    # test): when that differs from the model's exact kappa by rounding only and the rounding moves a window
+                    # edge across an integer, the input is outside what exact arithmetic decides (see `_edge_flip`);
+                    # a scaled coordinate that differs by more than rounding is a disagreement
+                    kf = float(fourier._scale_coord(np.array([[float(t) for t in row]]), shape, os_)[0, d])
+                    if abs(kf - float(kappa)) > 1e-9 * (1 + abs(float(kappa))):
+                        raise ValueError("_scale_coord gives %r, model kappa %s (axis %d, coordinate %s)" % (kf, kappa, d, v))
+                    if (math.ceil(kf - w / 2), math.floor(kf + w / 2)) != (math.ceil(kappa - Fraction(w, 2)), math.floor(kappa + Fraction(w, 2))):
+                        tie = True
+                    idx = [a * Fraction(w, 2) + kappa for a in args]
+                    if any(i.denominator != 1 for i in idx) or [int(i) % L for i in idx] != srcs:
+                        raise ValueError("driver window indices / wrap inconsistent: %s vs %s" % (idx, srcs))
+                    nu = np.arange(N) - N // 2
+                    S = np.zeros(N, dtype=np.complex128)
+                    for a in args:
+                        S += float(kb(float(a), beta) or 0.0) * np.exp(-2j * np.pi * float(a * Fraction(w, 2)) * nu / L)
+                    S /= w
+                    aa = (beta ** 2 - (math.pi * w * nu.astype(np.complex128) / L) ** 2) ** 0.5
+                    apod = (aa / np.sinh(aa)).real
+                    fac = N ** -0.5 * np.exp(-2j * np.pi * float(v) * nu / N) * apod * S
+                    model[j] = model[j] * fac.reshape([N if e == d else 1 for e in range(nd)])
+            if tie:
+                ctx.count("identity:skipped-window-edge-tie")
+                continue
+            c = dict(shape=shape, pts=[npts], os=os_, width=w)
+            co = np.array([[float(v) for v in row] for row in coord], dtype=np.float64).reshape(npts, nd)
+            A, AH = impl_matrices(c, coord=co)
+            Mm = model.reshape(npts, -1)
+            nM = np.linalg.norm(Mm)
+            if A.shape == Mm.shape and AH.shape == Mm.T.shape:
+                worst = max(worst, float(np.linalg.norm(A - Mm) / nM), float(np.linalg.norm(AH - Mm.conj().T) / nM))
+            if A.shape != Mm.shape or not np.linalg.norm(A - Mm) <= 1e-9 * nM:
+                why = "nufft matrix differs from NUDFT x (apodisation x kernel sum): rel %.3g" % (np.linalg.norm(A - Mm) / nM)
+            elif AH.shape != Mm.T.shape or not np.linalg.norm(AH - Mm.conj().T) <= 1e-9 * nM:
+                why = "nufft_adjoint matrix differs from the conjugate transpose of the model matrix: rel %.3g" % (
+                    np.linalg.norm(AH - Mm.conj().T) / nM)
+        except Exception as e:  # noqa
+            why = "exception %r" % (e,)
+        if why:
+            bad += 1
+            ctx.disagree("identity", dict(reified_shape=shape, os=os_, width=w, batch=[],
+                                          coord=[[str(v) for v in row] for row in coord]), why, rs[0][:200])
+    ctx.notes.append("identity: worst relative deviation of the real nufft / nufft_adjoint matrices from the model matrix "
+                     "(NUDFT x apodisation x kernel sum): %.3g (tolerance 1e-9)" % worst)
+    return bad
+
+
 def correspond(ctx):
     ctx.rule = ("formulas: (oversamp, N) pairs, oversamp in {1.25,1.5,2} + non-dyadic + random floats, N = 1..40(130) + random to 4000, "
                 "against the real _get_oversamp_shape/_scale_coord; apodize: random shapes 1-3 D x oversamp x width against the "
@@ -273,6 +412,8 @@ def correspond(ctx):
     ctx.oblige("correspondence:C06.apodize", "correspondence", bad == 0, "%d disagreements" % bad)
     bad = _reified_stream(ctx)
     ctx.oblige("correspondence:C06.reified", "correspondence", bad == 0, "%d disagreements" % bad)
+    bad = _identity_stream(ctx)
+    ctx.oblige("correspondence:C06.identity", "correspondence", bad == 0, "%d disagreements" % bad)
     ctx.traces = ctx.evaluations
     ctx.notes.append("level: proof, PARTIAL — scalings, centre, periodicity are theorems about the generated formulas; adjointness is proved "
                      "for the concrete 1-D / 2-D pipelines built from C05's DFT matrices, C09's resize relation and C07's generated update "
